@@ -365,6 +365,10 @@ def log_base_rule(model, res):
                 return fold(e.args[0]).sqrt()
             if isinstance(e.func, ast.Attribute) and e.func.attr == "sqrt" and not e.args:
                 return fold(e.func.value).sqrt()
+            if isinstance(e.func, ast.Attribute) and e.func.attr == "ln" and not e.args:
+                return fold(e.func.value).ln()
+            if fn in ("math.log", "log", "np.log", "numpy.log") and len(e.args) == 1:
+                return fold(e.args[0]).ln()
         if isinstance(e, ast.BinOp) and isinstance(e.op, ast.Pow):
             b, x = fold(e.left), fold(e.right)
             if x == D("0.5"):
@@ -384,9 +388,15 @@ def log_base_rule(model, res):
             try:
                 got = fold(st.value)
             except (ValueError, ArithmeticError):
-                raise AnalysisError(f"C06: cannot fold the constant `{ast.unparse(st)[:80]}` used by _sqrt_price_to_tick")
+                res.refusals.append(f"C06: cannot fold the constant `{ast.unparse(st)[:80]}` used by _sqrt_price_to_tick")
+                continue
             n += 1
             ok = abs(got - want) / want <= D("1e-15")
+            # the logarithm of the base (ln sqrt(1.0001) or ln 1.0001) is the same constant in another role; HOW it is used is
+            # decided by the formula identity of _sqrt_price_to_tick
+            if not ok and any(abs(got - w) / w <= D("1e-15") for w in (want.ln(), D("1.0001").ln())):
+                res.ob("R-CONST", f"{st.targets[0].id} = ln of the tick base to double precision", f"{mod.relpath}:{st.lineno}", ok=True)
+                continue
             res.ob("R-CONST", f"{st.targets[0].id} = sqrt(1.0001) to double precision (relative error {abs(got - want) / want:.2E})",
                    f"{mod.relpath}:{st.lineno}", ok=ok)
             if not ok:
